@@ -99,8 +99,8 @@ fn history(cfg: &Cfg, rep: &mut Report, fl: Flavour, h: u64, steps: usize) {
                     }
                 }
             }
-            let t = *rng.pick(&targets);
-            if t > cur && t < cur + 5000 {
+            let t = if rng.chance(1, 25) { cur + 600_000 } else { *rng.pick(&targets) };
+            if t > cur && (t < cur + 5000 || t == cur + 600_000) {
                 w.set_ledger(t);
                 rep.op(format!("ledger -> {t}"));
                 let now = tok.observe();
